@@ -1,4 +1,4 @@
-import Feox.Conc.Lin
+import Feox.Conc.Seq
 /-!
 # C07 — concurrent operations on a key are atomic and timestamp-ordered (linearizable)
 
@@ -44,6 +44,46 @@ theorem real_time_order (n : Nat) (as : List Action) (a b : Event)
   have h1 := linearization_points n as a ha
   have h2 := linearization_points n as b hb
   exact Nat.lt_of_le_of_lt h1.2.1 (Nat.lt_of_lt_of_le h h2.1)
+
+/-- **Linearizability.**  For any number of threads, any programs and any schedule there is a
+sequential order `lin` of the returned calls — a permutation of the log — which
+* the sequential last-writer-wins specification replays call by call (`replay`: every call that
+  is not a permitted refusal gets exactly its recorded response; refusals change nothing),
+  ending in the state the concurrent system is in;
+* is sorted by linearisation point, hence respects real time: no call stands before one that
+  had already returned when it was invoked. -/
+theorem linearizable (n : Nat) (as : List Action) :
+    ∃ lin : List Event,
+      lin.Perm ((Sys.init n).exec as).log ∧
+      replay none lin = some (abs ((Sys.init n).exec as).sh) ∧
+      lin.Pairwise (fun a b => a.linAt ≤ b.linAt) ∧
+      lin.Pairwise (fun a b => ¬ b.retAt < a.invAt) := by
+  have hI := reachable_inv n as
+  generalize (Sys.init n).exec as = s at hI
+  refine ⟨linUpTo s.log s.pos, ?_, ?_, linUpTo_sorted _ _, ?_⟩
+  · -- every returned call is linearised before the current position
+    have hall : s.log.filter (fun e => decide (e.linAt < s.pos)) = s.log := by
+      apply List.filter_eq_self.mpr
+      intro e he
+      have := hI.ev e he
+      have h2 := this.1.2.1
+      simp only [decide_eq_true_eq]
+      exact Nat.lt_of_le_of_lt h2 this.2
+    have := linUpTo_perm s.log s.pos
+    rw [hall] at this
+    exact this
+  · obtain ⟨st, h1, h2⟩ := replay_linUpTo hI s.pos (Nat.le_refl _)
+    rw [hI.last] at h1
+    cases h1
+    exact h2
+  · refine (linUpTo_sorted s.log s.pos).imp_of_mem ?_
+    intro a b ha hb hab hlt
+    -- b returned before a was invoked, yet a is not after b: impossible
+    have hma : a ∈ s.log := (linUpTo_perm s.log s.pos).mem_iff.mp ha |> fun h => (List.mem_filter.mp h).1
+    have hmb : b ∈ s.log := (linUpTo_perm s.log s.pos).mem_iff.mp hb |> fun h => (List.mem_filter.mp h).1
+    have h1 := (hI.ev a hma).1.1
+    have h2 := (hI.ev b hmb).1.2.1
+    omega
 
 /-- **Permitted refusals only** (one step, any state): a refusal leaves the key as it is, and is
 either `OlderTimestamp` with an accepted delete of an equal-or-newer timestamp on record, or a
